@@ -80,36 +80,68 @@ where
     let listener = TcpListener::bind(format!("{}:{}", config.host, config.port)).await?;
     info!("Tcp server running => {}|{}|{}:{}", config.protocol, config.cipher, config.host, config.port);
     match (&config.ssl, &config.ws) {
-        (None, ws_config) => {
-            while let Ok((inbound, _)) = listener.accept().await {
-                if ws_config.is_some() {
-                    tokio::spawn(template::tcp::accept_websocket_then_replay(inbound, new_codec(context.as_ref())?));
-                } else {
-                    tokio::spawn(template::tcp::relay(inbound, new_codec(context.as_ref())?));
+        (None, ws_config) => loop {
+            // neither a failing accept (e.g. descriptor exhaustion) nor one bad connection may end the service
+            let inbound = match listener.accept().await {
+                Ok((inbound, _)) => inbound,
+                Err(e) => {
+                    error!("[tcp] accept failed: {}", e);
+                    tokio::time::sleep(std::time::Duration::from_millis(100)).await;
+                    continue;
                 }
+            };
+            let codec = match new_codec(context.as_ref()) {
+                Ok(codec) => codec,
+                Err(e) => {
+                    error!("[tcp] new codec failed: {}", e);
+                    continue;
+                }
+            };
+            if ws_config.is_some() {
+                tokio::spawn(template::tcp::accept_websocket_then_replay(inbound, codec));
+            } else {
+                tokio::spawn(template::tcp::relay(inbound, codec));
             }
-        }
+        },
         (Some(ssl_config), ws_config) => {
             let cert = CertificateDer::from_pem_file(ssl_config.certificate_file.as_str())?;
             let key = PrivateKeyDer::from_pem_file(ssl_config.key_file.as_str())?;
             let tls_config = rustls::ServerConfig::builder().with_no_client_auth().with_single_cert(vec![cert], key)?;
             let tls_acceptor = TlsAcceptor::from(Arc::new(tls_config));
-            while let Ok((inbound, _)) = listener.accept().await {
-                let codec = new_codec(context.as_ref())?;
-                match tls_acceptor.accept(inbound).await {
-                    Ok(inbound) => {
-                        if ws_config.is_some() {
-                            tokio::spawn(template::tcp::accept_websocket_then_replay(inbound, new_codec(context.as_ref())?));
-                        } else {
-                            tokio::spawn(template::tcp::relay(inbound, codec));
-                        }
+            let use_ws = ws_config.is_some();
+            loop {
+                let inbound = match listener.accept().await {
+                    Ok((inbound, _)) => inbound,
+                    Err(e) => {
+                        error!("[tcp] accept failed: {}", e);
+                        tokio::time::sleep(std::time::Duration::from_millis(100)).await;
+                        continue;
                     }
-                    Err(e) => error!("[tcp] tls handshake failed: {}", e),
-                }
+                };
+                let codec = match new_codec(context.as_ref()) {
+                    Ok(codec) => codec,
+                    Err(e) => {
+                        error!("[tcp] new codec failed: {}", e);
+                        continue;
+                    }
+                };
+                // the TLS handshake runs in the connection's own task: a peer that stalls it must not block the accept loop
+                let tls_acceptor = tls_acceptor.clone();
+                tokio::spawn(async move {
+                    match tls_acceptor.accept(inbound).await {
+                        Ok(inbound) => {
+                            if use_ws {
+                                template::tcp::accept_websocket_then_replay(inbound, codec).await
+                            } else {
+                                template::tcp::relay(inbound, codec).await
+                            }
+                        }
+                        Err(e) => error!("[tcp] tls handshake failed: {}", e),
+                    }
+                });
             }
         }
     }
-    Ok(())
 }
 
 async fn startup_quic<RefContext, Context, NewCodec, Codec>(
@@ -136,7 +168,13 @@ where
         let addr = format!("{}:{}", config.host, config.port).parse()?;
         let endpoint = quinn::Endpoint::server(quic_server_config, addr)?;
         while let Some(incoming) = endpoint.accept().await {
-            let codec = new_codec(context.as_ref())?;
+            let codec = match new_codec(context.as_ref()) {
+                Ok(codec) => codec,
+                Err(e) => {
+                    error!("[quic] new codec failed: {}", e);
+                    continue;
+                }
+            };
             tokio::spawn(async {
                 let connection = incoming.await?;
                 let (send, recv) = connection.accept_bi().await?;
